@@ -211,3 +211,17 @@ Definition update_resources (g : option string) (rs selected : list gres) : list
 
 Definition gres_sub (a b : list gres) : bool := forallb (fun x => mem_gres x b) a.
 Definition gres_same (a b : list gres) : bool := gres_sub a b && gres_sub b a.
+
+(* ---- observation._disable_unsuitable_resources ------------------------------------------------
+   `nowatch` = the resources lacking the `list` or `watch` verb, `nopatch` = those lacking `patch`;
+   `psel` = the resources selected by some STATE-STORING handler's selector (on.create/update/delete/resume,
+   timers, daemons: registry._spawning | registry._changing) — an oracle, like `selected` above.
+       nonwatchable = {r | no watch or no list};  nonpatchable = {r | no patch} - nonwatchable
+       nonpatchable = {r for selector in selectors for r in selector.select(nonpatchable)}     (since 4448d18)
+   both sets are removed. *)
+Definition disable_unsuitable (rs nowatch nopatch psel : list gres) : list gres :=
+  filter (fun x => negb (mem_gres x nowatch) && negb (mem_gres x nopatch && mem_gres x psel)) rs.
+
+(* insights.watched_resources after revise_resources, ambiguity aside *)
+Definition revise_watched (g : option string) (rs selected nowatch nopatch psel : list gres) : list gres :=
+  disable_unsuitable (update_resources g rs selected) nowatch nopatch psel.
